@@ -103,7 +103,10 @@ func c03CheckUnpad(p *Prog, r *Report, rule string, fn *ssa.Function) {
 					}
 				}
 			}
-			if !ok && w.bad == "" && w.imprecise == "" && !rn.truncated {
+			if !ok && w.bad == "" && rn.dropped {
+				w.truncated = true
+			}
+			if !ok && w.bad == "" && w.imprecise == "" && !rn.truncated && !rn.dropped {
 				w.bad = rn.desc + ": well-formed padding is refused on every path (PadPKCS7 emits up to a full block of padding)"
 			}
 			vb.merge(w)
